@@ -5,7 +5,7 @@ import Ekit.Model.SegmentLock
 Trace acceptor for C14 (syncx.LimitPool, syncx.SegmentKeysLock).  Producer: harness/syncx/main.go.
 
 LimitPool cases
-    new limit <max> [kind=ptr|int0|unit|str0|val]  => ok tokens=<n> created=<c>   (element type of the pool; zero-valued kinds included)
+    new limit <max> [kind=ptr|int0|unit|str0|val|nilptr|nilsl|nilfn]  => ok tokens=<n> created=<c>   (element type of the pool; zero-valued and nil kinds included)
     get <t>                                 => true|false tokens=<n> created=<c>
     put <t>                                 => ok tokens=<n> created=<c>   |  skip      (nothing borrowed)
     new limitstress max=<m> g=<g> iters=<n> => hw=<h> finalgets=<f> extra=fail|ok …
